@@ -356,6 +356,22 @@ func runC05(seed int64, n int, tier string, outDir string) (*Report, error) {
 			rep.Violate(Violation{Op: "UnmarshalJSON", Input: string(text), Expected: "no error", Observed: err.Error(), Index: i})
 			continue
 		}
+		// what is read does not depend on package state: with the exported variable DefaultLang set to a language, the
+		// same document gives the same value (untagged text stays untagged)
+		if i%3 == 0 {
+			for _, dl := range []ap.LangRef{"fr", "en"} {
+				var y2 ap.Item
+				withDefaultLang(dl, func() {
+					defer func() { _ = recover() }()
+					y2, _ = ap.UnmarshalJSON(text)
+				})
+				rep.Evaluations++
+				rep.Count("config:DefaultLang")
+				if CoqItem(y2) != CoqItem(y) {
+					rep.Violate(Violation{Op: "UnmarshalJSON with DefaultLang = " + string(dl), Input: string(text), Expected: "the value read with the default setting", Observed: trunc(CoqItem(y2), 400), Index: i})
+				}
+			}
+		}
 		var diffs []string
 		c01Diff(structName(d.val), d.val, y, &diffs)
 		if len(diffs) > 0 {
